@@ -457,10 +457,17 @@ def decode_graph(rng, model_spec='default', wf=True):
         return None
 
 
+NUM_KIND = None
+
+
 def handbuilt_graph(rng, connected=True, nvars=None):
     """triples without any markers, random order"""
     n = nvars or rng.randint(1, 6)
-    zero = rng.choice([0, 0.0])
+    # ONE kind of number per graph (and per group of graphs that meet in one operation: NUM_KIND):
+    # 0 == 0.0 and 10 == 10.0 (and hash alike) in Python, so a graph holding both spellings of one
+    # number under one source and role is outside the model (finding M3)
+    kind = NUM_KIND or rng.choice(['int', 'float'])
+    zero = 0 if kind == 'int' else 0.0
     vs = rng.sample(VARS + ['k', 'm', 'n'], n)
     triples = []
     for v in vs:
@@ -484,7 +491,7 @@ def handbuilt_graph(rng, connected=True, nvars=None):
             r_ = role(rng, invert=maybe(rng, 0.1))
             if maybe(rng, 0.12):
                 # one role, == constants of different type/sign in different graphs (never within one)
-                r_, tgt = ':value', rng.choice([1, 1.0, 10, 10.0]) if zero == 0 and type(zero) is int else rng.choice([1.0, 10.0])
+                r_, tgt = ':value', (rng.choice([1, 10]) if kind == 'int' else rng.choice([1.0, 10.0]))
             triples.append((s, r_, tgt))
     if maybe(rng, 0.7):
         rng.shuffle(triples)
